@@ -56,6 +56,10 @@ def apply_edit(m, edit):
             m.update_reaction(name, fn=C._fn(payload))
         elif op == "update_reaction_st":
             m.update_reaction(name, stoichiometry={c: C._coef(cj) for c, cj in payload})
+        elif op == "update_derived":  # new function AND new argument list (possibly empty)
+            m.update_derived(name, fn=C._fn(payload), args=list(payload["args"]))
+        elif op == "update_reaction":
+            m.update_reaction(name, fn=C._fn(payload), args=list(payload["args"]))
         else:
             raise ValueError(op)
 
@@ -85,6 +89,14 @@ def edited_content(case):
             for kv in c["rxns"]:
                 if kv[0] == name:
                     kv[1] = dict(kv[1], st=payload)
+        elif op == "update_derived":
+            for kv in c["derived"]:
+                if kv[0] == name:
+                    kv[1] = dict(kv[1], args=list(payload["args"]), e=payload["e"])
+        elif op == "update_reaction":
+            for kv in c["rxns"]:
+                if kv[0] == name:
+                    kv[1] = dict(kv[1], args=list(payload["args"]), e=payload["e"])
     return c
 
 
@@ -152,7 +164,7 @@ def canon_M(q, r):
     if q[0] == "tc":
         return C.canon_tc_model(r)
     r = C.canon_model_res(r)
-    if "ok" in r and q[0] == "pvals":
+    if "ok" in r and q[0] in ("pvals", "stoichvar"):
         return {"ok": sorted(r["ok"])}
     return r
 
@@ -196,6 +208,10 @@ def standard_queries(rng, content, n_states=2):
         st = C.gen_state(rng, content)
         t = str(rng.choice([0, 1, 2, "1/2"]))
         qs += [["args", st, t], ["fluxes", st, t], ["rhs", st, t], ["call", t, [v for _, v in st]], ["stoich", st, t]]
+    touched = C.Spec(content).touched_vars()
+    if touched:
+        st = C.gen_state(rng, content)
+        qs.append(["stoichvar", st, str(rng.choice([0, 1, 2, "1/2"])), rng.choice(touched)])
     times = rng.sample(["0", "1/2", "1", "2", "3"], rng.randint(1, 3))
     qs.append(["tc", [[t, C.gen_state(rng, content)] for t in sorted(times, key=lambda x: eval(x))]])
     return qs
